@@ -136,6 +136,18 @@ def oracle(c):
     if k == "codontable":
         words = ["".join(p) for p in itertools.product("TCAG", repeat=3)]
         return [ncbi_lookup(c["id"], rc_spec(w) if c["minus"] else w) for w in words]
+    if k == "degen_codons":
+        out = []
+        for inc in (False, True):
+            row = []
+            for p3 in itertools.product(c["syms"], repeat=3):
+                res = {ncbi_lookup(c["id"], "".join(r)) for r in itertools.product(*(IUPAC_DNA[ch] for ch in p3))}
+                if not inc:
+                    res.discard("*")
+                key = "".join(sorted(res))
+                row.append("!" if not res else key if len(res) == 1 else "B" if key == "DN" else "Z" if key == "EQ" else "X")
+            out.append("".join(row))
+        return out
     if k == "codeinfo":
         cid = c["id"]
         aa, st = NCBI[cid]
@@ -173,7 +185,8 @@ def oracle(c):
         t = s.replace("U", "T") if c.get("m") == "rna" else s
         if not is_canon(s, "ACGU" if c.get("m") == "rna" else "ACGT") or len(s) < 3:
             return None
-        return frames_spec(c["id"], t)
+        fr = frames_spec(c["id"], t)
+        return fr if c.get("allow_rc", True) else fr[:3]
     if k == "app_translate_seqs":
         seqs = c["seqs"]
         if not all(is_canon(s) for s in seqs) or any(len(s) % 3 for s in seqs) or not all(seqs):
@@ -312,6 +325,8 @@ def coq_terms(c) -> list:
         return [("", f"CGetItem {V(c['v'])} {zlit(c['id'])} {zstr(c['codon'])}")]
     if k == "codontable":
         return [("", f"CCodonTable {V(c['v'])} {zlit(c['id'])} {cbool(c['minus'])}")]
+    if k == "degen_codons":
+        return []   # 2 x 15^3 codons in one case: oracle only (theorem degenerate_codon_is_set_of_resolutions ties the model)
     if k == "codeinfo":
         return []   # derived look-up tables of the objects: oracle only (the literal tables are proved equal to NCBI)
     if k in ("allframes", "sixframes") and c["v"] == "new":
@@ -338,7 +353,7 @@ def coq_terms(c) -> list:
     if k == "translate":
         return [("", f"CTranslate Old {zlit(c['id'])} {zs(c)} {zlit(c['start'])} {cbool(c['minus'])}")]
     if k == "app_frames":
-        return [("", f"CSixframes Old {zlit(c['id'])} DNA {zs(c)}")]
+        return [("", f"CAppFrames {zlit(c['id'])} {zs(c)} {cbool(c.get('allow_rc', True))}")]
     if k == "gettrans":
         a = f"{c['kind']} {zlit(c['id'])} {zseqs(c)}"
         t = [("", f"CGetTrans true true {a}"), ("x", f"CGetTrans false true {a}")]
@@ -441,6 +456,9 @@ def exhaustive_block(tier, widen=False):
             for minus in (False, True):
                 cases.append(dict(k="codontable", v=v, id=cid, minus=minus, block="codon-table"))
             cases.append(dict(k="codeinfo", v=v, id=cid, block="codon-table"))
+        if tier == "thorough" or cid in (1, 2, 4, 11, 31):
+            cases.append(dict(k="degen_codons", id=cid, syms="ACGTRYSWKMBDHVN" if tier == "thorough" or cid == 1 else "ACGTRYN",
+                              block="degenerate-codons"))
     # __getitem__: case, U, wrong lengths, non-canonical
     for cid in (IDS if tier == "thorough" else IDS[:4]):
         for v in VS:
@@ -481,6 +499,10 @@ def exhaustive_block(tier, widen=False):
     for cid in (2, 11):
         for n in (767, 768, 770):
             cases.append(dict(k="allframes", v="new", id=cid, unit=unit, n=n, block="dtype-boundary"))
+    for s0 in ("ATGAAACCCT", "ATGGGGTAACAT", "AAA", "ATGTAAC"):
+        for cid in (1, 2):
+            cases.append(dict(k="app_frames", id=cid, s=s0, allow_rc=False, block="all-lengths"))
+            cases.append(dict(k="app_frames", id=cid, s=s0, allow_rc=True, block="all-lengths"))
     for n in (767, 768, 771):
         cases.append(dict(k="sixframes", v="new", id=1, m="dna", unit=unit, n=n, block="dtype-boundary"))
         cases.append(dict(k="sixframes", v="old", id=1, m="dna", unit=unit, n=n, block="dtype-boundary"))
@@ -602,7 +624,8 @@ def rand_cds(rng, cid, gaps=False, ambig=False, ncod=None):
         elif gaps and r < 0.2:
             out.append(rng.choice(["---", "---", "A-G", "-AA", "TA-"]))
         elif ambig and r < 0.2:
-            out.append(rng.choice(["AAN", "RAA", "TAR", "YGA"]))
+            out.append(rng.choice(["AAN", "RAA", "TAR", "YGA", "AAY", "GAR", "RAY", "SAR", "MGN", "NNN", "TRA", "ATH", "WWW", "TGR"])
+                       if rng.random() < 0.6 else "".join(rng.choice("ACGTRYSWKMBDHVN") for _ in range(3)))
         else:
             out.append("".join(rng.choice("ACGT") for _ in range(3)))
     if ncod and rng.random() < 0.45:
@@ -659,7 +682,7 @@ def random_block(rng, n, maxlen):
         elif r < 0.58:
             s = rand_seq(rng, maxlen, mode=0.0)
             if len(s) >= 3:
-                cases.append(dict(k="app_frames", id=cid, s=s, block="random"))
+                cases.append(dict(k="app_frames", id=cid, s=s, allow_rc=rng.random() < 0.6, block="random"))
         elif r < 0.61:
             nseq = rng.randint(1, 3)
             if rng.random() < 0.5:
@@ -672,14 +695,14 @@ def random_block(rng, n, maxlen):
         elif r < 0.75:
             kind = rng.choice([0, 1, 2, 3, 4, 5, 6, 7])
             if kind in (0, 6):
-                seqs = [rand_cds(rng, cid, gaps=rng.random() < 0.2)]
+                seqs = [rand_cds(rng, cid, gaps=rng.random() < 0.2, ambig=rng.random() < 0.4)]
             elif kind in (1, 5):
                 seqs = [rand_cds(rng, cid, gaps=rng.random() < 0.2, ambig=rng.random() < 0.2)]
             elif kind in (2, 3):
-                seqs = [rand_cds(rng, cid, ambig=(kind == 3 and rng.random() < 0.2)) for _ in range(rng.randint(1, 3))]
+                seqs = [rand_cds(rng, cid, ambig=rng.random() < 0.25) for _ in range(rng.randint(1, 3))]
             else:
                 nc = rng.randint(1, 6)
-                seqs = [rand_cds(rng, cid, gaps=rng.random() < 0.5, ncod=nc) for _ in range(rng.randint(1, 3))]
+                seqs = [rand_cds(rng, cid, gaps=rng.random() < 0.5, ambig=rng.random() < 0.25, ncod=nc) for _ in range(rng.randint(1, 3))]
                 ln = min(len(s) for s in seqs)
                 seqs = [s[:ln] for s in seqs]
             if all(seqs) or kind in (1, 5):
@@ -726,6 +749,8 @@ def classify(c, bad_idx=None):
     k = c["k"]
     if k == "getitem":
         return f"getitem:{c['v']}"
+    if k == "degen_codons":
+        return f"degenerate-codon:old-seq:include_stop={bad_idx[0] if bad_idx else ''}"
     if k == "codeinfo":
         names = ["lookup-by-name", "lookup-by-str-id", "name", "start-codons", "stop-codons", "sense-codons", "aa-to-codons",
                  "is_stop", "is_start" if c["v"] == "old" else "stop_codons"]
@@ -927,7 +952,7 @@ def nontrivial(c) -> bool:
         return len(c["s"]) >= 3
     if k in ("translate", "translate_arr"):
         return len(c["s"]) - c["start"] >= 3
-    if k in ("codontable", "codeinfo"):
+    if k in ("codontable", "codeinfo", "degen_codons"):
         return True
     if k == "getitem":
         return len(c["codon"]) == 3
@@ -1023,8 +1048,13 @@ def run(tier: str, seed: int) -> int:
                          "6 frames x every translation entry point (thorough: 65535/65536 codons); every printable symbol x 4 "
                          "complement tables; "
                          "every IUPAC symbol / base set x old/new x DNA/RNA; random block sampled",
-        partial=["collection / alignment level get_translation and app.translate are compared (model + oracle on every "
-                 "case), not proved; the sequence-level stop handling is proved (get_translation_*_stop_spec)",
+        partial=["collection-level get_translation (old and new) is proved row-wise for canonical rows of any length; old "
+                 "Alignment/ArrayAlignment is proved for rows of codon-aligned triplets (codons of bases or '---') of equal "
+                 "length; rows with partial-gap or ambiguity triplets inside an alignment, app.translate_seqs and "
+                 "select_translatable are compared (model and/or oracle on every case), not proved",
+                 "old Sequence.get_translation on degenerate codons is proved per codon (15^3 codons x every code: "
+                 "degenerate_codon_is_set_of_resolutions, partial_gap_codon); its lifting to whole sequences with such codons "
+                 "is by correspondence",
                  "the all-length theorems describe the code WITH the repairs C12-1..4 (translate_w true true = translate for "
                  "every length, translate_with_dtype_repair_all_lengths); the code without them is characterised by "
                  "translate_pinned_minus_frame (C12-1), translate_dtype_pinned_guarded: right below 768 symbols, and "
@@ -1032,8 +1062,7 @@ def run(tier: str, seed: int) -> int:
                  "evaluates the model variants without each repair and reports every observation that equals one of them "
                  "under that finding's key",
                  "dtype boundary at 2^32 codons (uint64 items) is modelled but cannot be exercised",
-                 "old Sequence.get_translation on codons holding IUPAC ambiguity symbols and the fall-back steps of old "
-                 "degenerate_from_seq are outside the model"],
+                 "the fall-back steps of old degenerate_from_seq are outside the model"],
     )
     core.conclude(rep, pr, f"{len(cases)} cases against the NCBI/IUPAC oracle", dis[:5],
                   "Model.GeneticCodeRun.run_case vs cogent3 genetic_code/new_genetic_code/moltype/new_moltype", tier, PROP)
